@@ -129,6 +129,21 @@ def line_length_cases(rng, tier):
                     bits = (bits + ''.join(rng.choice('01') for _ in range(6 * n)))[:6 * n]
                     pay, fill = gen.armor(bits)
                     out.append('H'); out.append(L(0, 1, gen.sentence(pay, fill, sid=sid, chan=chan, start=start)))
+    # long payloads, both sides of every width an index or a length might be kept in (u8, the no-allocator
+    # capacities, powers of two), unfragmented and as a first fragment, every character random
+    for n in (120, 127, 128, 129, 170, 250, 254, 255, 256, 257, 258, 259, 260, 300, 320, 383, 384, 385, 400, 511, 512, 513, 514, 600, 1000, 1025):
+        for t in (8, 14, 6, 8):
+            bits = gen.message_bits(rng, t, 'random')
+            bits = (bits + ''.join(rng.choice('01') for _ in range(6 * n)))[:6 * n]
+            pay, fill = gen.armor(bits)
+            for d in (0, 1):
+                out.append('H'); out.append(L(0, d, gen.sentence(pay, fill)))
+                out.append('H'); out.append(L(0, d, gen.sentence(pay, 0, 2, 1, 4))); out.append(L(0, d, gen.sentence(b'00', 0, 2, 2, 4)))
+    # a long channel field in front of an ordinary payload
+    pay, fill = gen.armor(gen.message_bits(rng, 1))
+    for n in (2, 3, 16, 200, 255, 256, 257, 300):
+        for d in (0, 1):
+            out.append('H'); out.append(L(0, d, gen.sentence(pay, fill, chan=bytes(rng.choice(b'ABab12 xyz') for _ in range(n)))))
     return out
 
 def id_pair_cases(rng, tier):
@@ -231,6 +246,8 @@ def poisoned_parser_cases(rng, tier, types=None):
         t = rng.choice(gen.SUPPORTED)
         pay, fill = gen.armor(gen.message_bits(rng, t, 'random'))
         yield gen.sentence(pay[:1] + b'x' + pay[2:], fill)                                  # invalid armouring character
+        yield gen.undecodable_sentence(rng, 0)                                              # ... anywhere behind a valid prefix
+        yield gen.sentence(pay[:-1] + bytes([rng.choice(gen.ILLEGAL_ARMOR)]), fill)          # ... in last place: everything before it was unpacked
         yield gen.sentence(pay[:rng.randrange(1, max(2, len(pay) // 2))], 0)                 # too short for its type
         u = rng.choice([0, 22, 23, 25, 26, 28, 40, 63])
         yield gen.sentence(bytes([gen.armor_char(u)]) + pay[1:], fill)                       # unsupported type
@@ -255,7 +272,7 @@ def poisoned_parser_cases(rng, tier, types=None):
         yield [(1, gen.sentence(gen.armor(gen.message_bits(rng, 14) + '111111' * 7 + '1', '11111')[0], 5))]
     for t in types:
         for _ in range(scale(tier, 4, 40)):
-            good, gfill = gen.armor(gen.message_bits(rng, t, rng.choice(['random', 'ones', 'mixed'])))
+            good, gfill = gen.armor(gen.message_bits(rng, t, rng.choice(['random', 'ones', 'mixed', 'zeros', 'unavailable', 'maxvalid'])))
             for prior in priors():
                 out.append('H')
                 for d, l in prior: out.append(L(0, d, l))
@@ -527,6 +544,17 @@ def unarmor_cases(rng, tier):
         out.append(U(rng.randrange(6), bytes(rng.choice(A) for _ in range(n))))
     return out
 
+def unarmor_capacity_cases(rng, tier):
+    """C03 on the builds with fixed capacities: every length around the 384-byte output (512 characters) and around
+    384 characters, every fill count; short strings for the common path"""
+    out = []
+    A = gen.ALPHABET
+    for n in list(range(0, 12)) + list(range(376, 392)) + list(range(504, 520)) + [119, 120, 121, 255, 256, 257, 400, 450, 500, 768, 1024]:
+        for fill in range(6):
+            out.append(U(fill, bytes(rng.choice(A) for _ in range(n))))
+        if n: out.append(U(rng.randrange(6), bytes(rng.choice(A) for _ in range(n - 1)) + b'x'))
+    return out
+
 # ------------------------------------------------------------------ sentence-level streams
 
 def sentence_field_cases(rng, tier):
@@ -590,6 +618,20 @@ def sentence_field_cases(rng, tier):
     for _ in range(40):
         for (n, k, sid) in ((1, 1, None), (1, 1, 4), (2, 1, None), (2, 1, 3), (3, 1, None), (9, 1, 0), (0, 1, None), (2, 2, None)):
             add(gen.sentence(pay, fill, n, k, sid, tag=gen.tag_block(rng, k, n)), 0)
+    # TAG blocks whose parameters carry hostile values (signs, exponents, nan / inf, overflowing integers, malformed
+    # groupings) behind a correct block checksum, in front of every numbering shape: nothing in a TAG block may matter
+    for code in (b'c', b'g', b'n', b's', b'd', b't', b'x'):
+        for val in gen.HOSTILE_VALUES:
+            body = code + b':' + val
+            if b'\\' in body or b'*' in body: continue
+            for good in (True, False):
+                tag = body + b'*%02X' % (gen.checksum(body) ^ (0 if good else 0x33))
+                add(gen.sentence(pay, fill, tag=tag), 1)
+            tag2 = b's:AIS1,' + body + b',n:7'; tag2 += b'*%02X' % gen.checksum(tag2)
+            add(gen.sentence(pay, fill, 2, 1, 3, tag=tag2), 0)
+    for _ in range(60):
+        for (n, k, sid) in ((1, 1, None), (2, 1, None), (2, 1, 3), (2, 2, None)):
+            add(gen.sentence(pay, fill, n, k, sid, tag=gen.hostile_tag_block(rng)), 0)
     # spellings of the checksum field: runs of up to and beyond eight hex digits (only the first eight are read)
     for pl in (pay, b'15M', pay[:7] + b'w'):
         base = gen.sentence(pl, fill)
@@ -847,7 +889,8 @@ def random_history(rng, length):
             lines += frs
         elif c < 0.7: lines.append(gen.valid_sentence(rng))
         elif c < 0.8: lines.append(gen.mutate(rng, gen.valid_sentence(rng)))
-        elif c < 0.9: lines.append(gen.random_line(rng))
+        elif c < 0.86: lines.append(gen.random_line(rng))
+        elif c < 0.93: lines.append(gen.undecodable_sentence(rng))
         else:
             s = gen.valid_sentence(rng); lines.append(s[:-2] + b'00')
     return lines[:length]
@@ -891,7 +934,7 @@ def reassembly_cases(rng, tier):
                                 gen.sentence(b'9', 0, n + 1, n + 1, sid), gen.sentence(b'9', 0, 3, 2, 77),
                                 # unfragmented sentences that do not decode: unsupported type, too short, bad character
                                 gen.sentence(bytes([gen.armor_char(rng.choice([0, 22, 23, 25, 26, 28, 63]))]) + bytes(rng.choice(gen.ALPHABET) for _ in range(27)), 0),
-                                gen.sentence(b'1', 0), gen.sentence(b'1x5', 0)])
+                                gen.sentence(b'1', 0), gen.sentence(b'1x5', 0), gen.undecodable_sentence(rng, 0), gen.undecodable_sentence(rng)])
                 out.append(C(0, rng.randrange(2), x))
             out.append(C(0, rng.randrange(2) if (mixed and fr is not frs[-1]) else d, fr))    # the last line and the unfragmented twin share their flag
         out.append(C(0, d, gen.sentence(pay, fill)))     # the same payload unfragmented
